@@ -60,6 +60,11 @@ CHECKS = {
             "10 base programs (nested sub-pipelines, map calls, split stage, struct narrowing, projections, preflight, aliases, nested disabled modifiers, file types, retains) x every applicable site of 11 semantic edit kinds (rename call, change literal/top argument, add stage input/output, retype parameter, toggle split, retarget return, change/remove/add disabled) and 6 cosmetic kinds (reorder declarations, rename file type, add unused declarations, reformat, comments, whitespace): EquivalentCall must be false both ways for semantic and true both ways for cosmetic edits; the first site of each (base, kind) also goes through InvokePipeline + ReattachToPipestance(checkSrc) on a real pipestance directory; attach while locked must be refused and after unlock accepted.",
             "edits documented as ignored (retain, resources, volatile, chunk params) and switching the callee under an unchanged call name are outside the catalogue (unspecified)",
             "DESIGN.md 4/C15"),
+    "C16": ("exploration",
+            "bounded-exhaustive signature x value x split-subset enumeration through both converters, exact-decimal JSON comparison; per-fork _invocation files of real runs",
+            "Stage signatures with one parameter over 75 types (9 base types x array depth 0-2 x typed-map nesting 0-2) x every value of per-type edge lists (nested structs, typed maps, nulls, +-2^53+-1, int64 limits, 1e21, 5e-324, -0.0, strings with escapes/NUL/non-ASCII, empty collections), split over an array / a typed map / an empty array; all ordered pairs of types with all four split subsets: BuildCallSource -> compile -> InvocationDataFromSource -> BuildCallSource must preserve call name, include, split set and every argument value (numbers compared as exact decimals) and be text-stable. Additionally the _invocation file of every stage fork of nine real pipestance runs must compile against the stage's file and carry the arguments the fork's job received.",
+            "three-parameter signatures and types deeper than two levels are thorough-only / not covered",
+            "DESIGN.md 4/C16"),
     "C17": ("exploration",
             "bounded-exhaustive (type, JSON value) enumeration with single-point near-miss mutations against a three-valued reference validator and reference filter",
             "120 types (14 base types incl. six structs x array depth 0-2 x typed-map nesting 0-2); for each a generated set of valid values and every single-point near-miss mutation (wrong kind at each node, 1.0/1.5, extra nesting, extra/missing field), in compact and oddly spaced raw JSON (about 6*10^4 distinct pairs in quick); checks: IsValidJson agrees with the reference wherever it is decided and accepts null; FilterJson is idempotent, equals the reference filter (drops undeclared fields, integral floats to ints) and its result validates; for every ordered type pair (S,D) with D assignable from S every valid S value filtered to D validates for D; assignability is reflexive and component-wise for arrays, typed maps and structs over all 120^2 pairs.",
